@@ -27,7 +27,7 @@ DTOR_LAYOUTS = {
     True: ['sh.dtor.after_set_interrupter', 'sh.dtor.after_handler0', 'sh.dtor.after_msg_size0', 'free'],   # no `stop_ = 1`
 }
 LAYOUT_NAME = {(False, False): 'pinned', (True, False): 'ctorfix', (False, True): 'regfix', (True, True): 'fixed'}
-NSTEPS = {'C': 7, 'R': 2, 'W': 1, 'D': 5, 'N': 1}
+NSTEPS = {'C': 7, 'R': 2, 'W': 1, 'D': 5, 'N': 1, 'P': 1}
 CTOR_NAMES = CTOR_LAYOUTS[False]
 SET_NAMES = SET_LAYOUTS[False]
 
@@ -218,6 +218,14 @@ def gen_cases(ck):
                     cases.append(('enum-inherited-ign', '%s/%s/ign %s | %s' % (mode, out, prog, sch)))
                     cnt += 1
                 enum_desc.append('%s/%s/%s/ign/k=%d/%s:%d' % (prog.replace(' ', ''), mode, out, k, kinds.__name__, cnt))
+    # a solver that polls the stop query in a call-free loop (-O2 build, concrete handler object) while the signal arrives
+    # asynchronously from a timer: "P:<g>"
+    for prog in ('C P:I D W', 'C R:1:1 P:T W D', 'C W P:I P:T D W', 'C R:1:1 P:I P:I P:T D'):
+        for mode in ('bsd', 'sysv'):
+            cases.append(('poll', '%s %s |' % (mode, prog)))
+            n = nsteps(prog.replace('P:I', 'W').replace('P:T', 'W'))
+            for gap in (range(n + 1) if thorough else range(6, n + 1, 3)):
+                cases.append(('poll', '%s %s | %d:I' % (mode, prog, gap)))
     # re-entrance: a second signal raised from inside the first one's handler, at the places reachable without call-outs
     # in HandleSigInt (inside write(2), inside the callback, inside the re-arming signal()); alone and after one earlier signal
     for prog in (FAMILY[0], FAMILY[1]):
@@ -568,6 +576,75 @@ def app_token(case):
     return t[1] if len(t) > 1 and t[1] in APP_VARIANTS else None
 
 
+def is_poll(case):
+    return ' P:' in case.split('|')[0]
+
+
+def unpoll(case):
+    """`P:<g>` (poll the stop query in a call-free loop while g arrives asynchronously) is, for the model and the oracle,
+    the signal g delivered in the gap before a work step"""
+    head, _, sched = case.partition('|')
+    toks = head.split()
+    entries = [(int(x.split(':')[0]), i, x) for i, x in enumerate(sched.split())]
+    pos, out = 0, [toks[0]]
+    extra = []
+    for m in toks[1:]:
+        if m.startswith('P:'):
+            extra.append((pos, 10 ** 6 + len(extra), '%d:%s' % (pos, m[2])))
+            out.append('W')
+            pos += 1
+        else:
+            out.append(m)
+            pos += NSTEPS[m[0]]
+    allent = sorted(entries + extra, key=lambda e: (e[0], e[1]))
+    return ' '.join(out) + ' | ' + ' '.join(e[2] for e in allent)
+
+
+def build_poll_harness(ck):
+    """the unit harness compiled with -O2 (no sanitizers), with the polling step P:<g>"""
+    F = ('-O2',)
+    h = ck.objects([os.path.join(VERIF, 'harness', 'h_signal.cc')], flags=F + ('-DC15_POLL',), tag='c15poll')
+    return ck.link('h_signalpoll', h + ck.libmp_objects(flags=F))
+
+
+def build_pt_harness(ck):
+    h = ck.objects([os.path.join(VERIF, 'harness', 'h_signal_pt.cc')], flags=('-O1',), tag='c15pt')
+    return ck.link('h_signalpt', h + ck.libmp_objects(flags=('-O1',)))
+
+
+def nested_instruction_level(ck, drv, layout):
+    """Re-entrance on the real code at instruction granularity (ptrace single-stepping, harness/h_signal_pt.cc): SIGTERM is
+    injected after every instruction of HandleSigInt(SIGINT).  Returns (real outcomes per scenario, model outcomes per
+    scenario and gap, oracle verdicts)."""
+    exe = build_pt_harness(ck)
+    p = subprocess.run([exe, 'UO'], capture_output=True, text=True, timeout=300)
+    real = {'U': [], 'O': []}
+    for ln in p.stdout.split('\n'):
+        m = re.match(r'([UO]) N=(\d+) off=(-?\d+) (pair=\S+ callbacks=\S+ third=\S+)', ln)
+        if m and int(m.group(2)) >= 1:      # N=0: the injection coincides with the delivery of the outer signal itself
+            real[m.group(1)].append((int(m.group(2)), int(m.group(3)), m.group(4)))
+    if p.returncode != 0 or not real['U'] or not real['O']:
+        raise RuntimeError('h_signal_pt failed (ptrace not permitted?): rc=%s %s' % (p.returncode, (p.stdout + p.stderr)[-600:]))
+    q = subprocess.run([drv, layout], input=''.join('nestk bsd %s %d\n' % (sc, k) for sc in 'UO' for k in range(7)),
+                       capture_output=True, text=True)
+    ml = q.stdout.split('\n')
+    model = {'U': ml[0:7], 'O': ml[7:14]}
+    verdicts = []
+    for sc in 'UO':
+        for n, off, out in real[sc]:
+            pair = re.search(r'pair=(\S+)', out).group(1)
+            third = re.search(r'third=(\S+)', out).group(1)
+            if sc == 'U' and not (pair == '2' and third == 'exit1'):
+                kind = 'undercount' if pair == '1' else 'other'
+                verdicts.append(('nested-count:%s' % kind, 'SIGTERM delivered after %d instructions of HandleSigInt(SIGINT) (pc = HandleSigInt+%d): stop_ = %s after the two '
+                                 'interrupts, a third interrupt leaves the process %s' % (n, off, pair, third), 'U N=%d' % n))
+            if sc == 'O' and pair != 'exit1':
+                kind = 'overcount' if pair == '3' else 'undercount' if pair == '2' else 'other'
+                verdicts.append(('nested-count:%s' % kind, 'one interrupt recorded; SIGTERM delivered after %d instructions of HandleSigInt(SIGINT) (pc = HandleSigInt+%d): the third '
+                                 'interrupt does not terminate the process, stop_ = %s' % (n, off, pair), 'O N=%d' % n))
+    return real, model, verdicts
+
+
 def is_app(case):
     return app_token(case) is not None
 
@@ -589,16 +666,17 @@ def build_app_harness(ck, extra_flags=()):
     return ck.link('h_signalapp', h + objs + ck.libmp_objects(flags=F))
 
 
-def run_impl(exe, lines, shards, app_exe=None):
-    """runs every case on the real code; APP cases go to the BackendApp build of the harness"""
+def run_impl(exe, lines, shards, app_exe=None, poll_exe=None):
+    """runs every case on the real code; APP cases go to the BackendApp build of the harness, P: cases to the -O2 build"""
     if app_exe is not None:
         ia = [i for i, l in enumerate(lines) if is_app(l)]
-        io = [i for i, l in enumerate(lines) if not is_app(l)]
+        ip = [i for i, l in enumerate(lines) if is_poll(l) and poll_exe is not None]
+        io = [i for i, l in enumerate(lines) if not is_app(l) and not (is_poll(l) and poll_exe is not None)]
         outs = [None] * len(lines)
         stub = os.path.join(BUILD, 'c15', 'app')
         os.makedirs(os.path.dirname(stub), exist_ok=True)
         open(stub + '.nl', 'w').write(APP_NL)
-        for idx, ex, extra, tag in ((io, exe, [], 'u'), (ia, app_exe, [stub], 'a')):
+        for idx, ex, extra, tag in ((io, exe, [], 'u'), (ia, app_exe, [stub], 'a'), (ip, poll_exe, [], 'p')):
             if idx:
                 res = run_impl_one(ex, [lines[i] for i in idx], shards, extra, tag)
                 for i, r in zip(idx, res):
@@ -635,7 +713,7 @@ def run_model(drv, lines, layout='pinned'):
     # the model does not have the inherited disposition (it only matters before the handler is installed, and the
     # generator never schedules a signal there for /ign cases): the model is asked about the same case without it
     lines = [l.replace('/ign ', ' ', 1) if l.split(' ', 1)[0].endswith('/ign') else l for l in lines]
-    lines = [unapp(l) for l in lines]
+    lines = [unpoll(unapp(l)) if is_poll(l) else unapp(l) for l in lines]
     p = subprocess.run([drv, layout], input='\n'.join(lines) + '\n', capture_output=True, text=True)
     if p.returncode != 0:
         raise RuntimeError('model driver failed: %s' % p.stderr[-800:])
@@ -815,7 +893,7 @@ def coverage_report(res, label):
     return '\n'.join(out), mt
 
 
-N_THEOREMS = 43
+N_THEOREMS = 46
 CURRENT_LAYOUT = 'fixed+dtor'     # = Layout.current in lean/MpVerif/C15/Model.lean (the order the main theorems are stated for)
 
 
@@ -880,7 +958,7 @@ def run(ck):
     cases, enum_desc = gen_cases(ck)
     lines = [l for _, l in cases]
     ck.log('%d cases (%s)' % (len(lines), ', '.join('%s=%d' % (o, sum(1 for x, _ in cases if x == o))
-                                                        for o in ['corpus', 'counterexample', 'enum', 'enum-stdout', 'enum-inherited-ign', 'enum-nested', 'enum-backendapp', 'enum-extra', 'random', 'malformed'])))
+                                                        for o in ['corpus', 'counterexample', 'enum', 'enum-stdout', 'enum-inherited-ign', 'poll', 'enum-nested', 'enum-backendapp', 'enum-extra', 'random', 'malformed'])))
     if os.environ.get('VERIF_COVERAGE'):
         sel = os.environ.get('VERIF_COVERAGE')
         old_origins = ('corpus', 'counterexample', 'enum', 'enum-extra', 'random', 'malformed')
@@ -906,7 +984,8 @@ def run(ck):
         json.dump(summ, open(os.path.join(VERIF, 'design_notes', 'coverage', 'C15.%s.json' % sel), 'w'), indent=1)
         ck.log('coverage (%s): %s' % (sel, json.dumps({k: v for k, v in summ.items() if k != 'per_file'})))
     app_exe = build_app_harness(ck)
-    impl = run_impl(exe, lines, 8 if ck.tier == 'thorough' else 6, app_exe)
+    poll_exe = build_poll_harness(ck)
+    impl = run_impl(exe, lines, 8 if ck.tier == 'thorough' else 6, app_exe, poll_exe)
     ck.log('implementation runs done')
     model = run_model(drv, lines, layout)
     ck.log('model runs done')
@@ -923,6 +1002,12 @@ def run(ck):
             if il != 'bad-op' or ml != 'bad-op':
                 corr_bad.append((case, il, ml, 'malformed input must be rejected by both sides'))
             continue
+        if is_poll(case):
+            hist['poll_steps'] = hist.get('poll_steps', 0) + case.split('|')[0].count(' P:')
+            if 'poll-timeout' in il:
+                oracle_bad.setdefault('poll:lost', []).append((case, 'a solver polling SignalHandler::Stop() in a call-free loop (optimised build) was still '
+                                                              'spinning 400 ms after the signal had been delivered and handled: the stop query never observed it', il))
+            case = unpoll(case)
         if is_app(case):
             # after ~BackendApp the backend (which holds the interrupter pointer) no longer exists: field not observable
             k = ml.find(' free[')
@@ -965,6 +1050,23 @@ def run(ck):
             oracle_bad.setdefault(sig, []).append((case, what, il))
         if origin == 'counterexample':
             cx_seen[case] = [s for s, _ in verdicts]
+    # re-entrance at instruction granularity on the real code, against the model's per-gap outcomes
+    try:
+        nreal, nmodel, nverd = nested_instruction_level(ck, drv, layout)
+        rs = {sc: sorted(set(o for _, _, o in nreal[sc])) for sc in 'UO'}
+        ms = {sc: sorted(set(nmodel[sc])) for sc in 'UO'}
+        ck.cov['nested_instruction_level'] = {
+            'instructions_tried': {sc: len(nreal[sc]) for sc in 'UO'},
+            'real_outcomes': rs, 'model_outcomes_by_gap': nmodel,
+            'windows_on_real_code': {sc: [(n, off, o) for n, off, o in nreal[sc] if o not in (nmodel[sc][0],)][:12] for sc in 'UO'},
+            'note': 'SIGTERM injected (ptrace) after every instruction of HandleSigInt(SIGINT) that lies in HandleSigInt itself; scenario U: stop_ = 0 before, O: one earlier interrupt'}
+        if rs != ms:
+            corr_bad.append(('nested-instruction-level', str(rs), str(ms), 'set of outcomes of a nested SIGTERM over all instruction boundaries of the real handler vs. over all gaps of the model'))
+        for sig, what, inp in nverd:
+            oracle_bad.setdefault(sig, []).append(('h_signal_pt ' + inp, what, inp))
+    except RuntimeError as e:
+        ck.cov['nested_instruction_level'] = {'skipped': str(e)[:300]}
+        ck.log('instruction-level re-entrance replay skipped: %s' % str(e)[:200])
     # which arms of the model functions did the compared stream exercise (counted on the model's own output)
     arms = {}
 
@@ -1130,7 +1232,19 @@ def replay(ck, path):
     cf, rf, df, names = detect_layout(exe)
     set_layout(bool(cf), bool(rf), bool(df))
     layout = layout_name(cf, rf, df)
-    il = run_impl(exe, [case], 1, build_app_harness(ck) if is_app(case) else None)[0]
+    if case.startswith('h_signal_pt'):
+        nreal, nmodel, nverd = nested_instruction_level(ck, drv, layout)
+        for sc in 'UO':
+            print('scenario %s, real code (instruction, pc offset, outcome) differing from the sequential outcome:' % sc)
+            for n, off, o in nreal[sc]:
+                if o != nmodel[sc][0]:
+                    print('   N=%d HandleSigInt+%d  %s' % (n, off, o))
+            print('scenario %s, model by gap k=0..6: %s' % (sc, nmodel[sc]))
+        want = rp.get('signature')
+        still = any(sg == want for sg, _, _ in nverd)
+        print('REPRODUCED' if still else 'not reproduced')
+        return 1 if still else 0
+    il = run_impl(exe, [case], 1, build_app_harness(ck), build_poll_harness(ck) if is_poll(case) else None)[0]
     ml = run_model(drv, [case], layout)[0]
     if is_app(case):
         k = ml.find(' free[')
@@ -1140,7 +1254,9 @@ def replay(ck, path):
     print('case      : ' + case)
     print('real code : ' + il)
     print('model     : ' + ml)
-    verd = oracle(unapp(case), il)
+    verd = oracle(unpoll(case) if is_poll(case) else unapp(case), il)
+    if 'poll-timeout' in il:
+        verd.append(('poll:lost', 'the polling loop never observed the interrupt'))
     for s, w in verd:
         print('property oracle: %s — %s' % (s, w))
     if il != ml:
